@@ -1,5 +1,5 @@
 (* C13 - Over-long names are cut on a character boundary; over-long icons are dropped. *)
-From Ctap Require Import Base Schema Wire Utf8 Typed Procs Inst Tables Limits WireP TypedP FramingP.
+From Ctap Require Import Base Schema Wire Utf8 Typed Procs Inst Tables Limits WireP TypedP FramingP Utf8P StrsP.
 Local Open Scope string_scope.
 Local Open Scope Z_scope.
 
@@ -15,6 +15,55 @@ Proof.
   - rewrite Z.eqb_refl. cbn [negb].
     replace (firstn (Z.to_nat (blen s)) s) with s by (unfold blen; rewrite Nat2Z.id, firstn_all; reflexivity).
     destruct (L <? blen s) eqn:E1; [apply Z.ltb_lt in E1; Lia.lia|reflexivity].
+Qed.
+
+(* For every valid UTF-8 text of ANY length and every limit L >= 0: truncation never reaches a panic site
+   (the slice, the push_str unwrap, the unwrap_unchecked in floor_char_boundary), and yields the prefix
+   that ends at the greatest character boundary not beyond L: it is valid UTF-8, at most L bytes long,
+   and no longer boundary-aligned prefix fits.  (boundary s k: k is 0 or the end of a well-formed
+   character of s, StrsP.v.) *)
+Theorem c13_truncate : forall s, utf8_valid s = true -> forall L, 0 <= L ->
+  exists k, truncate L s = Ok (firstn k s) /\ boundary s k /\ Z.of_nat k <= L /\
+            utf8_valid (firstn k s) = true /\ blen (firstn k s) <= L /\
+            (forall k', boundary s k' -> Z.of_nat k' <= L -> (k' <= k)%nat).
+Proof.
+  intros s Hs L HL. apply utf8_valid_iff in Hs.
+  destruct (truncate_spec s Hs L HL) as [k [H1 [H2 [H3 [H4 [H5 H6]]]]]].
+  exists k. repeat split; try assumption. apply utf8_valid_iff. exact H4.
+Qed.
+
+(* the unsafe unwrap_unchecked precondition: on valid UTF-8 the window always contains a boundary byte *)
+Theorem c13_floor_never_panics : forall s, utf8_valid s = true -> forall L, 0 <= L ->
+  exists k, floor_char_boundary s L = Ok (Z.of_nat k) /\ boundary s k /\ Z.of_nat k <= L.
+Proof.
+  intros s Hs L HL. apply utf8_valid_iff in Hs.
+  destruct (floor_char_boundary_spec s Hs L HL) as [k [H1 [H2 [H3 _]]]]. exists k. auto.
+Qed.
+
+(* text that is not valid UTF-8 is rejected by the string reader (any position of the fault) *)
+Theorem c13_invalid_utf8_rejected : forall e k s r, blen s < 4294967296 -> utf8_valid s = false ->
+  dec e (S k) TStrRef (ser_text s ++ r)%list = Err BadUtf8.
+Proof. intros e k s r Hl Hu. rewrite dec_strref_exact by exact Hl. rewrite Hu. reflexivity. Qed.
+
+(* the user icon helper: kept verbatim up to the capacity, reported absent beyond, never a failure *)
+Theorem c13_icon_skip_if_too_long : forall decf fd i s r cap,
+  f_with fd = Some "deserialize_from_str_and_skip_if_too_long" -> f_ty fd = TOpt (TStrCap cap) ->
+  decf TStrRef i = Ok (VStr s, r) ->
+  dec_with decf fd i = Ok (if blen s <=? cap then VSome (VStr s) else VNone, r).
+Proof.
+  intros decf fd i s r cap Hw Ht Hd. unfold dec_with. rewrite Hw.
+  cbn [String.eqb Ascii.eqb Bool.eqb]. rewrite Hd. cbn [bind]. rewrite Ht. cbn [str_cap].
+  destruct (blen s <=? cap); reflexivity.
+Qed.
+
+(* the name helper: absent / null -> None, otherwise the truncation above at the member's capacity *)
+Theorem c13_name_truncated : forall decf fd i s r cap,
+  f_with fd = Some "deserialize_from_str_and_truncate" -> f_ty fd = TOpt (TStrCap cap) ->
+  decf (TOpt TStrRef) i = Ok (VSome (VStr s), r) ->
+  dec_with decf fd i = (t <- truncate cap s ;; Ok (VSome (VStr t), r)).
+Proof.
+  intros decf fd i s r cap Hw Ht Hd. unfold dec_with. rewrite Hw.
+  cbn [String.eqb Ascii.eqb Bool.eqb]. rewrite Hd. cbn [bind]. rewrite Ht. reflexivity.
 Qed.
 
 (* the limits the helpers are instantiated at: names 64, user icon 128 - regenerated from /repo *)
@@ -35,5 +84,10 @@ Example c13_ex3 : truncate 2 [0xF0; 0x9F; 0x98; 0x80] = Ok [].
 Proof. vm_compute. reflexivity. Qed.
 
 Eval vm_compute in "ASSUMPTIONS c13_fits_unchanged". Print Assumptions c13_fits_unchanged.
+Eval vm_compute in "ASSUMPTIONS c13_truncate". Print Assumptions c13_truncate.
+Eval vm_compute in "ASSUMPTIONS c13_floor_never_panics". Print Assumptions c13_floor_never_panics.
+Eval vm_compute in "ASSUMPTIONS c13_invalid_utf8_rejected". Print Assumptions c13_invalid_utf8_rejected.
+Eval vm_compute in "ASSUMPTIONS c13_icon_skip_if_too_long". Print Assumptions c13_icon_skip_if_too_long.
+Eval vm_compute in "ASSUMPTIONS c13_name_truncated". Print Assumptions c13_name_truncated.
 Eval vm_compute in "ASSUMPTIONS c13_limits_generated". Print Assumptions c13_limits_generated.
 Eval vm_compute in "ASSUMPTIONS c13_generated_conforms". Print Assumptions c13_generated_conforms.
